@@ -12,12 +12,14 @@ from . import c07
 
 FILES = c07.FILES + ["kafe2/fit/util/__init__.py", "kafe2/core/fitters/nexus_fitter.py", "kafe2/fit/xy/model.py"]
 META = {
+    "lean": ["Label.lean"],
     "level": "proof",
     "trusted_base": c07.META["trusted_base"] + [
         "scipy.optimize.minimize calls the objective with vectors of the length it was given and returns such a vector in .x (external)",
         "numpy pairwise fancy indexing M[ia, ja][k] = M[ia[k]][ja[k]]; boolean-mask indexing keeps the masked entries in order (masked quadratic form identity used for the band)",
     ],
-    "assumptions": c07.META["assumptions"] + ["only the kafe2-side index bookkeeping is decided; invariance of the optimum under permutation / rescaling is a numerical property of the back ends (C05/C06 not applicable)"],
+    "assumptions": c07.META["assumptions"] + ["lean/Label.lean (Lean 4 / Mathlib, re-checked in the thorough tier): r.V^-1 r and det V are unchanged when the points are relabelled (r o sigma, V.submatrix sigma sigma); with residuals x s and covariances x s^2 the chi2 term is unchanged and log det changes by the constant N log s^2 - with C01 (the code computes exactly these terms) the OBJECTIVE handed to the minimizer is the same function of the parameters",
+                                                "only the kafe2-side index bookkeeping and the invariance of the objective are decided; invariance of the optimum under permutation / rescaling is a numerical property of the back ends (C05/C06 not applicable)"],
     "bounded": [{"what": "end-to-end permutation of data points, permutation of parameters (with fixed / limited / constrained subsets) and rescaling of y on real fits, both back ends", "bound": "native: 2 back ends x 3 models x all permutations of 3 parameters x scale factors {1e-3, 7, 1e4}"}],
 }
 me = z3.Const("self", Ref)
@@ -204,8 +206,33 @@ def u_initial_steps(root):
     return eng
 
 
+
+def u_label_lemmas(root):
+    """the inputs of the cost transform as lean/Label.lean assumes: residuals and every source covariance (C02's specification) are equivariant under a
+    relabelling sigma of the points and homogeneous under a change of the unit of y"""
+    eng = engine(root, FILES, {}, [])
+    sig = z3.Function("sigma", I, I)
+    d, m, err, ref = (z3.Const(x, PA) for x in ("data", "model", "err", "reference"))
+    rho, s_, rel = z3.Real("rho"), z3.Real("unit_scale"), z3.Real("relative_size")
+    n = z3.Int("n")
+    inj = z3.ForAll([i, j], z3.Implies(z3.And(0 <= i, i < n, 0 <= j, j < n, sig(i) == sig(j)), i == j))
+    src = lambda e_: (lambda a, b: e_(a) * e_(b) * z3.If(a == b, z3.RealVal(1), rho))          # C02: cov[a][b] = e_a e_b rho_ab, rho_aa = 1
+    inr = z3.And(0 <= i, i < n, 0 <= j, j < n)
+    eng.lemma("relabelling: residual k of the relabelled data is residual sigma(k)", [], z3.ForAll([i], (d[sig(i)] - m[sig(i)]) == (lambda r_: r_(sig(i)))(lambda t: d[t] - m[t])))
+    eng.lemma("relabelling: an absolute source with relabelled sizes has covariance entries C[sigma i][sigma j] (sigma injective)", [inj], z3.ForAll([i, j], z3.Implies(inr, src(lambda t: err[sig(t)])(i, j) == src(lambda t: err[t])(sig(i), sig(j)))))
+    eng.lemma("relabelling: a relative source (size x reference) likewise, for data- and model-referenced sources", [inj], z3.ForAll([i, j], z3.Implies(inr, src(lambda t: rel * ref[sig(t)])(i, j) == src(lambda t: rel * ref[t])(sig(i), sig(j)))))
+    A_, B_ = z3.Const("A_", arr(I, I, R)), z3.Const("B_", arr(I, I, R))
+    Ap, Bp = z3.Const("A_relabelled", arr(I, I, R)), z3.Const("B_relabelled", arr(I, I, R))
+    eq = lambda X, Xp: z3.ForAll([i, j], Xp[i][j] == X[sig(i)][sig(j)])
+    eng.lemma("relabelling: the sum of sources (total covariance, C02) of relabelled sources is the relabelled total", [eq(A_, Ap), eq(B_, Bp)], z3.ForAll([i, j], Ap[i][j] + Bp[i][j] == (A_[sig(i)][sig(j)] + B_[sig(i)][sig(j)])))
+    eng.lemma("units: residuals scale with s", [], z3.ForAll([i], s_ * d[i] - s_ * m[i] == s_ * (d[i] - m[i])))
+    eng.lemma("units: an absolute source given in the new unit has covariance s^2 C", [], z3.ForAll([i, j], src(lambda t: s_ * err[t])(i, j) == s_ * s_ * src(lambda t: err[t])(i, j)))
+    eng.lemma("units: a relative source needs no conversion - its covariance follows the reference: s^2 C", [], z3.ForAll([i, j], src(lambda t: rel * (s_ * ref[t]))(i, j) == s_ * s_ * src(lambda t: rel * ref[t])(i, j)))
+    return eng
+
+
 def units(root):
     shared = [u for u in c07.units(root) if "fill" in u.name or "lemma" in u.name]
     return [Unit(u.name + " (shared with C07)", u.build, u.budget) for u in shared] + [
         Unit("MinimizerScipyOptimize.minimize argument re-packing", u_scipy_repack, budget=2.0), Unit("is_diagonal", u_is_diagonal),
-        Unit("MinimizerScipyOptimize.unlimit by name", u_scipy_names), Unit("NexusFitter initial step sizes", u_initial_steps)]
+        Unit("MinimizerScipyOptimize.unlimit by name", u_scipy_names), Unit("NexusFitter initial step sizes", u_initial_steps), Unit("lemmas: inputs of the cost under relabelling / unit change (feeds lean/Label.lean)", u_label_lemmas)]
